@@ -687,3 +687,42 @@ Lemma grace_example :
   let o := connection (mkP 22 1000 false 2 false DnsErr []) c05_half_close_ms false true client server in
   o_down o = [7] /\ o_end o = 10400 /\ o_err o = true /\ o_up_shut o = true.
 Proof. vm_compute. repeat split. Qed.
+
+(* ------------------------------------------------------------------ the grace period is counted from the EOF *)
+(* a socket read that reports end of stream completes at the instant the end of stream is seen *)
+Lemma sock_read_eof_time : forall now n s r s' t,
+  sock_read now n s = (r, s', t) -> r_err r = Some EEof ->
+  exists e, k_eof s = Some e /\ t = N.max now e.
+Proof.
+  intros now n s r s' t H He. unfold sock_read in H.
+  destruct (k_closed s); [inversion H; subst; discriminate|].
+  destruct (expired (k_dl s) now); [inversion H; subst; discriminate|].
+  destruct (k_in s) as [|c rest].
+  - destruct (k_eof s) as [e|].
+    + destruct (expired (k_dl s) (N.max now e)); inversion H; subst; try discriminate.
+      exists e. split; reflexivity.
+    + destruct (k_dl s); inversion H; subst; discriminate.
+  - destruct (expired (k_dl s) (N.max now (c_at c))); inversion H; subst; discriminate.
+Qed.
+
+(* relayCore.run: when a direction's step ends cleanly (PDone None) at time t - the time of THAT read, i.e. of
+   that direction's end of stream - the deadline armed on the socket it writes to is t + grace, and the relay's
+   clock is t; it does not depend on when the relay started or on the other direction *)
+Lemma grace_from_eof_left : forall grace pend y d' s' t,
+  dir_step pend (y_l2r y) (y_L y) (y_now y) = (d', s', t) -> d_phase d' = PDone None ->
+  k_dl (y_R (advance grace pend true y)) = Some (t + grace) /\ y_now (advance grace pend true y) = t
+  /\ k_closed (y_R (advance grace pend true y)) = k_closed (y_R y) /\ y_L (advance grace pend true y) = s'.
+Proof.
+  intros grace pend y d' s' t H Hp. unfold advance. rewrite H.
+  unfold running. rewrite Hp. unfold finish. cbn [d_phase]. rewrite Hp. cbn. repeat split.
+Qed.
+
+Lemma grace_from_eof_right : forall grace pend y d' s' t,
+  dir_step false (y_r2l y) (y_R y) (y_now y) = (d', s', t) -> d_phase d' = PDone None ->
+  k_dl (y_L (advance grace pend false y)) = Some (t + grace) /\ y_now (advance grace pend false y) = t
+  /\ k_closed (y_L (advance grace pend false y)) = k_closed (y_L y) /\ y_R (advance grace pend false y) = s'.
+Proof.
+  intros grace pend y d' s' t H Hp. unfold advance. rewrite H.
+  unfold running. rewrite Hp. unfold finish. cbn [d_phase]. rewrite Hp.
+  destruct (has_close_write (d_stack (y_l2r y))); cbn; repeat split.
+Qed.
